@@ -1135,6 +1135,24 @@ def install(I):
         yield v, st
     I.lib["copy.copy"] = I.lib["copy.deepcopy"]
 
+    def np_zeros(I_, st, args, kw):
+        """A-numpy (minimal): np.zeros((n, m), dtype=float) is a matrix indexable exactly at 0 <= i < n, 0 <= j < m, every entry 0.0;
+        modelled as a mapping from index pairs to reals (so `M[i, j] += x` is a read-modify-write of one entry and nothing else)"""
+        shape = args[0] if args else kw.get("shape")
+        if not (isinstance(shape, tuple) and len(shape) == 2):
+            raise Unsupported("np.zeros with a shape that is not a literal pair")
+        n, m = (I.coerce(x if isinstance(x, SV) else I.materialize(x, INT), INT, what="np.zeros shape") for x in shape)
+        kk = TUP(INT, INT)
+        kd = DICT(kk, REAL)
+        ks = keysort(kk)
+        dom = z3.Const(core.fresh_name("npdom"), z3.ArraySort(ks, core.B))
+        i, j = z3.Int(core.fresh_name("i")), z3.Int(core.fresh_name("j"))
+        key = to_key(kk, (i, j))
+        I.define([z3.ForAll([i, j], z3.Select(dom, key) == z3.And(i >= 0, i < n.tree, j >= 0, j < m.tree))])
+        yield SV(kd, (dom, z3.K(ks, z3.RealVal(0)))), st
+    I.lib["numpy.zeros"] = BuiltinVal("np.zeros", np_zeros)
+    I.lib["np.zeros"] = I.lib["numpy.zeros"]
+
     def contains_obj(k):
         if k.tag == "obj":
             return True
